@@ -408,6 +408,27 @@ def measure(D):
     return kinds, sub
 
 
+def solid_solution_fragile(D, follow_cell_kinds=None):
+    """True when the dump holds a solid-solution assemblage in a setting where the engine's answer was seen to depend on
+    its starting point (several phase assemblages reachable from nearly the same state): next to pure phases, a gas phase
+    or kinetic reactants, with an end-member absent (< 1e-6 mol), or with a0 / a1 large enough for a miscibility gap"""
+    kinds = set(R.kinds(D))
+    if "SOLID_SOLUTIONS" not in kinds:
+        return False
+    if kinds & {"EQUILIBRIUM_PHASES", "GAS_PHASE", "KINETICS"}:
+        return True
+    for (kind, n), e in D.items():
+        if kind != "SOLID_SOLUTIONS":
+            continue
+        for ss in (e.get("solid_solution") or {}).values():
+            if abs(float(ss.get("a0") or 0)) + abs(float(ss.get("a1") or 0)) > 1.5:
+                return True
+            for c in (ss.get("component") or {}).values():
+                if float(c.get("moles") or 0) < 1e-6:
+                    return True
+    return False
+
+
 DEFAULT_SUB = {"surf_type=ddl", "gas_fixed_pressure", "kin_cvode", "surf_new_def", "exch_new_def"}
 
 
@@ -450,9 +471,6 @@ def compare_tables(TA, TB, cols, redox, what, stats=None):
                 dev = abs(a - b) / tolerance(k, a, b)
                 if stats is not None:
                     stats[k] = max(stats.get(k, 0.0), dev)
-                if not dev <= 1.0 and os.environ.get("C10_DEV_SOFT"):
-                    stats["SOFT " + what + " " + h.split("_")[0]] = dev
-                    continue
                 if not dev <= 1.0:
                     raise Violation(what, "follow-up row %d column %s: %.17g on the original, %.17g on the restored state "
                                     "(%.3g x the tolerance 1e-7 * scale + 1e-11)" % (r, h, a, b, dev))
@@ -533,20 +551,34 @@ def run_follow(I, case, key="follow"):
     return I.table(1), ""
 
 
-def modify_input(D1, P1, guess=""):
+def modify_input(D1, P1, estimates=False):
     """(placeholder definitions, restore text): solutions as placeholders + SOLUTION_MODIFY with totals, total_h, total_o, cb
-    only; all other entities as RAW.  guess: extra lines of the placeholder (other starting estimates)"""
+    only; all other entities as RAW.  estimates=True (the replica used by the stability guard) also hands over the
+    solver's starting estimates that the dump holds (pH, pe, mu, ah2o, log activities, log gammas)."""
     place, mod = [], []
     for (kind, n), e in P1.items():
         if kind != "SOLUTION":
             continue
         # the placeholder has the temperature, pressure and water mass of the solution it stands for: none of them is
         # derivable from the four restored items, and mixing weights intensive properties by the stored water mass
-        place.append("SOLUTION %d\n temp %r\n pressure %r\n -water %r%s" % (n, float(e["temp"]), float(e["pressure"]), float(e["mass_water"]), guess))
+        place.append("SOLUTION %d\n temp %r\n pressure %r\n -water %r" % (n, float(e["temp"]), float(e["pressure"]), float(e["mass_water"])))
         L = ["SOLUTION_MODIFY %d" % n, " -total_h %s" % _tok(e["total_h"]), " -total_o %s" % _tok(e["total_o"]),
              " -cb %s" % _tok(e["cb"]), " -totals"]
         for name, v in R.nv(e.get("totals")).items():
             L.append("  %s %s" % (name, _tok(v)))
+        # (the SOLUTION keyword raises a pressure below the vapour pressure of water to that value, e.g. the 0.01 atm
+        # left by a fixed-volume gas phase -> the placeholder's pressure is completed here)
+        L.append(" -pressure %s" % _tok(e["pressure"]))
+        if estimates:
+            for k in ("pH", "pe", "mu", "ah2o"):
+                if e.get(k) is not None:
+                    L.append(" -%s %s" % (k, _tok(e[k])))
+            for k in ("activities", "gammas"):
+                rows = R.nv(e.get(k))
+                if rows:
+                    L.append(" -" + k)
+                    for name, v in rows.items():
+                        L.append("  %s %s" % (name, _tok(v)))
         mod.append("\n".join(L))
     rest = block_text(D1, lambda k, n: k != "SOLUTION")
     return "\n".join(place) + "\nEND\n", rest + "\n".join(mod) + "\nEND\n"
@@ -570,11 +602,6 @@ def check_case(case, ctx):
             I.close()
 
 
-def _trace(msg):
-    if os.environ.get("C10_TRACE"):
-        os.write(2, (msg + "\n").encode())
-
-
 def _check(case, ctx, inst):
     redox = case["redox"]
     # generator-side labels: only those that are not measured again on the dump (the evidence histogram keeps 80 labels)
@@ -595,7 +622,6 @@ def _check(case, ctx, inst):
     F1 = fields(D1)
 
     # (5a) Phreeqc copy and Serializer on the original: dump_raw text before == after
-    _trace("raw_dump")
     R1 = raw_dump(A)
     # the in-memory rendering of the original agrees with what DUMP -all wrote (same blocks, same text)
     bd = {(k, n): "\n".join(l) for k, n, l in blocks(D1)[0]}
@@ -610,7 +636,6 @@ def _check(case, ctx, inst):
     Rt = storagebin_into(A, T)
     if Rt != R1:
         raise Violation("storagebin", "dump_raw after phreeqc2cxxStorageBin -> cxxStorageBin2phreeqc into a fresh instance: %s" % first_diff(R1, Rt))
-    _trace("copy_dump")
     if case["db"] in NO_COPY_DBS and not case.get("known_copy"):
         ctx.event("excluded_engine_copy_pitzer_sit")
     else:
@@ -621,9 +646,7 @@ def _check(case, ctx, inst):
             raise Violation("copy", "dump_raw of the copy-constructed engine differs from the original: %s" % first_diff(R1, Rc))
     S = inst()
     nmax = max([n for k, n, l in blocks(D1)[0]] + [0])
-    _trace("serialize")
     Rs = A.serialize_into(S, 0, nmax)
-    _trace("serialize done")
     if Rs is None:
         raise Violation("serializer", "Serialize/Deserialize failed")
     Rs = raw_dump(S)
@@ -679,10 +702,8 @@ def _check(case, ctx, inst):
     fixed_point(D2, D3, ctx, "third instance reading the second dump")
     # (5b) storage-bin round trip on the restored state
     Rb = raw_dump(B)
-    _trace("storagebin")
     B.roundtrip_storagebin()
     Rb2 = raw_dump(B)
-    _trace("storagebin done")
     if Rb2 != Rb:
         raise Violation("storagebin", "dump_raw after phreeqc2cxxStorageBin -> cxxStorageBin2phreeqc differs: %s" % first_diff(Rb, Rb2))
 
@@ -695,6 +716,8 @@ def _check(case, ctx, inst):
         classes.append("followup_without_rows")
     elif not poised:
         classes.append("followup_not_compared_unpoised")
+    elif solid_solution_fragile(P1):
+        classes.append("followup_not_compared_solid_solution_in_multi_assemblage_setting")
     else:
         # Stability guard (DESIGN section 4 rule 7, extended from redox to every kind of ill-conditioning): each route is
         # judged only when the follow-up is reproducible under noise of the size the route legitimately introduces -
@@ -740,11 +763,12 @@ def _check(case, ctx, inst):
                 raise Violation("read_errors", "reading MIX/REACTION blocks gave errors: %s" % S.errors()[:400])
             okx = S2.run_string(extra + "END\n") == 0
         route("serializer", S, S2, okx)
-        # (4) SOLUTION_MODIFY with totals, total_h, total_o, cb only; replica: placeholder with other starting estimates
+        # (4) SOLUTION_MODIFY with totals, total_h, total_o, cb only (the solver then starts from the placeholder's
+        # pure-water estimates); replica: the same plus the starting estimates of the dump
         if P1:
             E, E2 = inst(), inst()
             place, restore = modify_input(D1, P1)
-            place2, restore2 = modify_input(D1, P1, "\n pH 5\n pe 8")
+            place2, restore2 = modify_input(D1, P1, estimates=True)
             if E.run_string(place) != 0:
                 ctx.event("modify_leg_placeholder_error")
             else:
@@ -752,9 +776,6 @@ def _check(case, ctx, inst):
                 if rc != 0 or E.errors().strip():
                     raise Violation("read_errors", "SOLUTION_MODIFY / RAW restore gave errors: %s" % E.errors()[:600])
                 route("solution_modify", E, E2, E2.run_string(place2) == 0 and E2.run_string(restore2) == 0)
-    for k in [k for k in stats if k.startswith("SOFT ")]:
-        classes.append(k)
-        del stats[k]
     if stats:
         # largest follow-up deviation seen, in units of the tolerance (one entry per shard)
         ctx.extra["followup_max_deviation_over_tolerance"] = [max([(ctx.extra.get("followup_max_deviation_over_tolerance") or [0.0])[0]] + list(stats.values()))]
